@@ -1,0 +1,31 @@
+//go:build verif
+
+package limitparallelrequests
+
+import "sync/atomic"
+
+// Scheduling point for the verification harness (/verif). Compiled only with
+// -tags verif. The harness installs a function that is called with the limiter
+// and the name of the point; it may park the calling goroutine (no lock is held
+// at the point):
+//
+//	"ep-ctx-done"  acquireEndpoint: the select took <-ctx.Done(), cancelEndpoint
+//	               has not been called yet (the request's channel is still where
+//	               it was: queued, or closed by a concurrent releaseEndpoint).
+
+var verifYieldFn atomic.Pointer[func(limiter *LimitParallelRequests, point string)]
+
+// VerifSetYield installs (or, with nil, removes) the scheduling-point callback.
+func VerifSetYield(f func(limiter *LimitParallelRequests, point string)) {
+	if f == nil {
+		verifYieldFn.Store(nil)
+		return
+	}
+	verifYieldFn.Store(&f)
+}
+
+func verifYield(limiter *LimitParallelRequests, point string) {
+	if f := verifYieldFn.Load(); f != nil {
+		(*f)(limiter, point)
+	}
+}
